@@ -79,7 +79,7 @@ StandinSigmaError.__name__ = "SigmaError"
 
 
 def run_per_rule_converter(ctx, fn: str, fin_sub: bool = False, referenced: bool = False, output: bool = True, fail_at: str | None = None,
-                           collect: bool = False, me=None, fail_with: BaseException | None = None):
+                           collect: bool = False, me=None, fail_with: BaseException | None = None, keep_pipeline: bool = False, output_format: str | None = None):
     """Backend.convert_rule / convert_correlation_rule interpreted (sa.tabulate, Proxy) on a stand-in rule with two queries.
     fail_at ∈ {None, 'pipeline', 'convert', 'finish', 'finalize'} makes that stage raise a (stand-in) SigmaError.
     Returns a namespace: ret, raised, stored, finalised_calls, errors, rule, me, error (the injected error object)."""
@@ -139,12 +139,15 @@ def run_per_rule_converter(ctx, fn: str, fin_sub: bool = False, referenced: bool
     corr = lambda rule_, fmt, method: stage("convert", ["c0", "c1"])  # noqa: E731
     env = {"SigmaError": SigmaError, "SigmaConversionError": SigmaConversionError, "SigmaCorrelationType": SigmaCorrelationType,
            "SigmaExtendedCorrelationCondition": SigmaExtendedCorrelationCondition, "NotImplementedError": NotImplementedError, "Exception": Exception}
-    IK = {"behaviours": (SigmaError,) + ((type(fail_with),) if fail_with is not None else ()), "max_steps": 8000}
+    # with the pipeline initialisation of the source in play, a missing attribute of the backend (no pipeline yet) is a behaviour
+    IK = {"behaviours": (SigmaError,) + ((type(fail_with),) if fail_with is not None else ()) + ((AttributeError, KeyError) if keep_pipeline else ()), "max_steps": 8000}
+    me_given = me
     if me is None:
         attrs = {"last_processing_pipeline_format": "default", "default_format": "default", "collect_errors": collect, "errors": [],
                  "correlation_methods": {"default": "d"}, "default_correlation_method": "default", "name": "b", "init_processing_pipeline": lambda fmt=None: None}
         me = Proxy(prog, B, env, attrs, interp_kwargs=IK)
-    me.last_processing_pipeline = pipeline
+    if not keep_pipeline:
+        me.last_processing_pipeline = pipeline
     me.finalize_correlation_subqueries = fin_sub
     me.convert_condition = lambda c, st: stage("convert", c)
     me.finish_query = lambda rule_, q, st: stage("finish", f"fin({q})")
@@ -153,16 +156,22 @@ def run_per_rule_converter(ctx, fn: str, fin_sub: bool = False, referenced: bool
         setattr(me, f"convert_correlation_{cm}_rule", corr)
     out = _types.SimpleNamespace(ret=None, raised=None, stored=stored, finalised_calls=finalised_calls, rule=rule, me=me, error=error, errors=None, trace=trace)
     try:
-        out.ret = call_method(prog, B, fn, me, env, rule, interp_kwargs=IK) if fn == "convert_rule" else call_method(prog, B, fn, me, env, rule, None, None, interp_kwargs=IK)
+        out.ret = call_method(prog, B, fn, me, env, rule, output_format, interp_kwargs=IK) if fn == "convert_rule" else call_method(prog, B, fn, me, env, rule, output_format, None, interp_kwargs=IK)
     except Raised as ex:
         out.raised = ex
     except AnalysisError as ex:
         # a run without injected failure has shown that every name of the body has a stand-in: a name that is missing when
         # a stage fails is a local that the failing path leaves unbound (UnboundLocalError at run time)
-        if fail_at is not None and "NameError" in str(ex):
+        plain_ok = getattr(ctx, "_converter_plain_ok", {})
+        if "NameError" in str(ex) and (fail_at is not None or plain_ok.get(fn)):
             out.raised = Raised(f"UnboundLocalError ({ex})")
         else:
             raise
+    else:
+        if fail_at is None and me_given is None and out.raised is None:
+            if not hasattr(ctx, "_converter_plain_ok"):
+                ctx._converter_plain_ok = {}
+            ctx._converter_plain_ok[fn] = True
     out.errors = me.errors
     return out
 
@@ -307,3 +316,51 @@ def pipeline_sum_outcome(ctx):
     except Raised as ex:
         out.radd0, out.radd5 = ex, ex
     return out
+
+
+class PipeStandin:
+    """A processing pipeline as far as Backend uses it: '+' (None is an identity), vars, state, apply(), query post-processing."""
+    log: list = []
+
+    def __init__(self, names, vars_=None):
+        self.names, self.vars, self.state, self.applied_to = list(names), dict(vars_ or {}), {}, []
+
+    def __add__(self, o):
+        if o is None:
+            return self
+        return PipeStandin(self.names + o.names, {**self.vars, **o.vars})
+
+    def __radd__(self, o):
+        return self if o in (0, None) else NotImplemented
+
+    def apply(self, rule, *a, **k):
+        PipeStandin.log.append(("apply", tuple(self.names), dict(self.vars)))
+        return rule
+
+    def postprocess_query(self, rule, query):
+        return query
+
+    def finalize(self, output):
+        PipeStandin.log.append(("finalize", tuple(self.names), output))
+        return ("PIPELINE-FINAL", output)
+
+
+def backend_with_real_init(ctx, user_pipeline=True):
+    """A Backend stand-in (Proxy) whose init_processing_pipeline is the one of the source, interpreted; pipelines are PipeStandin."""
+    import types as _types
+    from ..tabulate import Proxy, call_method
+    prog = ctx.prog
+    B = "sigma.conversion.base.Backend"
+    env: dict = {"SigmaError": StandinSigmaError, "NotImplementedError": NotImplementedError, "Exception": Exception}
+    IK = {"behaviours": (StandinSigmaError, KeyError), "max_steps": 8000}
+    inits: list = []
+    attrs = {"backend_processing_pipeline": PipeStandin(["backend"], {"from_backend": 1}), "processing_pipeline": PipeStandin(["user"], {"from_user": 1}) if user_pipeline else None,
+             "output_format_processing_pipeline": {"default": PipeStandin(["fmt-default"]), "test": PipeStandin(["fmt-test"])}, "backend_options": {"opt": "val"}, "name": "bk",
+             "default_format": "default", "formats": {"default": "d", "test": "t"}, "collect_errors": False, "errors": [], "correlation_methods": {"default": "d"}, "default_correlation_method": "default"}
+    me = Proxy(prog, B, env, attrs, interp_kwargs=IK)
+
+    def init(fmt=None):
+        inits.append(fmt)
+        return call_method(prog, B, "init_processing_pipeline", me, env, fmt, interp_kwargs=IK)
+    me.init_processing_pipeline = init
+    return me, env, IK, inits
